@@ -1,7 +1,10 @@
 SPEC = dict(
     props_file="C01",
     legs=[dict(family="bounds", oracles=["prop_ok"], tie_oracles=["tie_ok"], profiles=["debug", "release"], mask=[0], search_focus="mc", search_oracles=["mc_ok"], n_search=40,
-               n_quick=70, n_thorough=700, panic_is_violation=True)],
+               n_quick=70, n_thorough=700, panic_is_violation=True),
+          # labelled TEST, not a proof obligation: Monte Carlo bias / coverage of the real sketches at 5 sigma
+          dict(family="bounds", focus="mc", oracles=["prop_ok", "mc_ok5"], profiles=["release"], mask=[0],
+               n_quick=40, n_thorough=200, n_search=40, panic_is_violation=True)],
     level_text="Theorems (Props/C01.v), deterministic half of C01, over IEEE binary64 (Coq primitive floats, Flocq): for EVERY finite "
                "non-negative estimate, every lg_k (HLL 4..21, CPC 4..26), both estimators of each family (HIP / composite-out-of-order, "
                "HIP / ICON) and all coupon counts of list/set mode (exhaustive kernel sweep, <= 196608) the bound functions of hll/estimator.rs and cpc/estimator.rs -- executable model over the four HLL "
